@@ -84,6 +84,7 @@ class Interp:
         self._comp_ctx = None
         self._assuming: set = set()
         self.global_effects = []
+        self.inlined: set = set()
 
     def index_function(self, fnode):
         """syntactic ordinals of loops and comprehensions (source order) - sidecar contracts are keyed by them"""
@@ -170,6 +171,12 @@ class Interp:
             return ModuleRef(dotted)
         # maybe a repo function without contract / class
         head, last = dotted.rsplit(".", 1)
+        if not extract.is_module(head) and head.count(".") >= 1 and extract.is_module(head.rsplit(".", 1)[0]):
+            try:
+                extract.find_function(dotted)  # Class.method
+                return FuncRef(dotted)
+            except extract.ExtractError:
+                pass
         if extract.is_module(head):
             tree, _ = extract.load_module(head)
             for node in tree.body:
@@ -676,7 +683,7 @@ class Interp:
         if isinstance(f, FuncRef):
             c = registry.CONTRACTS.get(f.dotted)
             if c is None:
-                raise Unsupported(f"call to {f.dotted} which has no contract")
+                return self.inline_concrete(f, args, kwargs, st)
             return self.call_contract(c, args, kwargs, st)
         if isinstance(f, ClassRef):
             return self.construct(f, args, kwargs, st)
@@ -690,6 +697,53 @@ class Interp:
         if callable(f):
             return f(self, st, *args, **kwargs)
         raise Unsupported(f"call of {f!r}")
+
+    def inline_concrete(self, f, args, kwargs, st):
+        """a repository function without contract may be executed in place when every argument is concrete
+        (its real body is interpreted; it must be deterministic and single-path on these arguments)"""
+        def concrete(v):
+            if isinstance(v, (SV, SymIter)):
+                return False
+            if isinstance(v, (list, tuple, set, frozenset)):
+                return all(concrete(x) for x in v)
+            if isinstance(v, dict):
+                return all(concrete(x) for x in v.values())
+            return True
+        if not all(concrete(a) for a in list(args) + list(kwargs.values())):
+            raise Unsupported(f"call to {f.dotted} which has no contract (symbolic arguments)")
+        try:
+            fi = extract.find_function(f.dotted)
+        except extract.ExtractError as e:
+            raise Unsupported(f"call to {f.dotted}: {e}")
+        sub = Interp(fi.module, qualname=f.dotted)
+        sub.mode = self.mode
+        a = fi.node.args
+        names = [x.arg for x in a.posonlyargs + a.args]
+        env = {}
+        for nme, dflt in zip(names[len(names) - len(a.defaults):], a.defaults):
+            env[nme] = sub.ev(dflt, State())
+        for kw, dflt in zip(a.kwonlyargs, a.kw_defaults):
+            if dflt is not None:
+                env[kw.arg] = sub.ev(dflt, State())
+        env.update(dict(zip(names, args)))
+        extra = {k: v for k, v in kwargs.items() if k not in names and k not in [x.arg for x in a.kwonlyargs]}
+        env.update({k: v for k, v in kwargs.items() if k not in extra})
+        if a.kwarg is not None:
+            env[a.kwarg.arg] = extra
+        elif extra:
+            raise PyRaise(ExcVal("TypeError", (f"unexpected keyword {list(extra)}",)))
+        missing = [n_ for n_ in names if n_ not in env]
+        if missing:
+            raise Unsupported(f"inline call {f.dotted}: missing {missing}")
+        outs = sub.exec_block(fi.node.body, State(env, list(st.pc)))
+        self.dropped |= sub.dropped
+        self.inlined.add(f.dotted)
+        rets = [o for o in outs if o.kind in ("return", "fall")]
+        if len(outs) == 1 and outs[0].kind == "raise":
+            raise PyRaise(outs[0].val)
+        if len(outs) != 1 or not rets:
+            raise Unsupported(f"inlined call to {f.dotted} has several paths")
+        return rets[0].val if rets[0].kind == "return" else None
 
     def construct(self, cref: ClassRef, args, kwargs, st):
         d = cref.dotted
@@ -1755,6 +1809,7 @@ class Interp:
         for nm, g in inv_terms(body_st, k.t):
             self.assume(body_st, g)
         self.bind_target(s.target, it.at(k), body_st)
+        body_st.env["k"] = k  # the ghost iteration index stays visible (e.g. on a `break` path)
         self.covers.append((f"{self.qualname}/loop{ordinal}.body.reachable", list(body_st.pc)))
         outs = []
         for o in self.exec_block(s.body, body_st):
@@ -1777,6 +1832,7 @@ class Interp:
                     exit_st.pc.append(it.visited_fact(g_.t))
         for nm, g in inv_terms(exit_st, kk.t):
             self.assume(exit_st, g)
+        exit_st.env["k"] = kk
         if s.orelse:
             outs.extend(self.exec_block(s.orelse, exit_st))
         else:
